@@ -647,26 +647,14 @@ def traverseInRange (start end_ : Option Bytes) (ascending inclusive : Bool) :
     else
       let goL := Node.afterStart start c.key
       let goR := Node.beforeEnd end_ inclusive c.key
-      if ascending then
-        let (st, left) ← if goL then do
-            let (st, l) ← getLeft st a
-            traverseInRange start end_ ascending inclusive fuel st l
-          else some (st, [])
-        let (st, right) ← if goR then do
-            let (st, r) ← getRight st a
-            traverseInRange start end_ ascending inclusive fuel st r
-          else some (st, [])
-        some (st, left ++ right)
-      else
-        let (st, right) ← if goR then do
-            let (st, r) ← getRight st a
-            traverseInRange start end_ ascending inclusive fuel st r
-          else some (st, [])
-        let (st, left) ← if goL then do
-            let (st, l) ← getLeft st a
-            traverseInRange start end_ ascending inclusive fuel st l
-          else some (st, [])
-        some (st, right ++ left)
+      let visitL : St → Option (St × List (Bytes × Bytes)) := fun st =>
+        if goL then (getLeft st a).bind (fun p => traverseInRange start end_ ascending inclusive fuel p.1 p.2)
+        else some (st, [])
+      let visitR : St → Option (St × List (Bytes × Bytes)) := fun st =>
+        if goR then (getRight st a).bind (fun p => traverseInRange start end_ ascending inclusive fuel p.1 p.2)
+        else some (st, [])
+      if ascending then (visitL st).bind (fun p => (visitR p.1).bind (fun q => some (q.1, p.2 ++ q.2)))
+      else (visitR st).bind (fun p => (visitL p.1).bind (fun q => some (q.1, p.2 ++ q.2)))
 
 /-- A read through a tree handle (`ImmutableTree.{Get,Has,GetByIndex,IterateRange[Inclusive]}`),
 including the `root == nil` guards. -/
